@@ -153,7 +153,12 @@ func Assign(left, right value.Value) error {
 			lv.IsNotSet = false
 		case value.IpType: // STRING = IP
 			rv := value.Unwrap[*value.IP](right)
-			lv.Value = rv.Value.String()
+			// An IP which holds no address renders as nothing, not as "<nil>"
+			if rv.Value == nil {
+				lv.Value = ""
+			} else {
+				lv.Value = rv.Value.String()
+			}
 			lv.IsNotSet = rv.IsNotSet
 		case value.RegexType: // STRING = REGEX
 			rv := value.Unwrap[*value.Regex](right)
@@ -261,7 +266,7 @@ func Assign(left, right value.Value) error {
 		case value.IpType: // IP = IP
 			rv := value.Unwrap[*value.IP](right)
 			lv.Value = rv.Value
-			lv.IsNotSet = false
+			lv.IsNotSet = rv.IsNotSet
 		default:
 			return errors.WithStack(fmt.Errorf("invalid assignment for IP type, got %s", right.Type()))
 		}
